@@ -129,6 +129,19 @@ pub fn run(args: &Args) -> Report {
                         let c = Slot { h: s.h.clone(), m: s.m.clone(), cap: s.cap };
                         slots.push(c);
                         ops.push(format!("s{}=s{}.clone()", slots.len() - 1, si));
+                    } else {
+                        // Clone::clone_from into a used instance (deeper or shallower CV stack, other
+                        // offset, other mode): afterwards it must be indistinguishable from the source
+                        let dst = (si + 1 + rng.usize_below(slots.len() - 1)) % slots.len();
+                        let (srch, srcm, srccap) = (slots[si].h.clone(), slots[si].m.clone(), slots[si].cap);
+                        ops.push(format!("s{}.clone_from(&s{})", dst, si));
+                        match guarded(|| slots[dst].h.clone_from(&srch)) {
+                            Ok(()) => {
+                                slots[dst].m = srcm;
+                                slots[dst].cap = srccap;
+                            }
+                            Err(m) => fail!("clone_from/panic", "clone_from panicked: {}", m),
+                        }
                     }
                 }
                 _ => {}
